@@ -10,37 +10,44 @@ theorem pmOps_append {β} (μ : Op → Nat → β) (v : Nat) (a b : List Op) :
     simp only [List.cons_append, pmOps]
     split <;> simp [ih]
 
+/-- The vis test of the adapter as a proposition. -/
+def GN.static (n : GN) : Prop := n.xVis = .known ∧ n.sVis = .known ∧ n.bVis = .known
+
+theorem gn_static_iff (n : GN) : (n.xVis = .known && n.sVis = .known && n.bVis = .known) = true ↔ n.static := by
+  unfold GN.static; cases n.xVis <;> cases n.sVis <;> cases n.bVis <;> simp
+
 theorem gn_replaced {n : GN} {news : List Op} (h : groupnormalization_20_21 (.groupNorm n) = .replaced news) :
-    ∃ g, n.groups = some g ∧ news = gnReplacement n g ∧ n.hasX = true ∧ n.hasScale = true ∧ n.hasBias = true
-      ∧ n.xVis = .known ∧ g ≠ n.c ∧ g = n.sLen ∧ g = n.bLen := by
+    n.hasX = true ∧ n.hasScale = true ∧ n.hasBias = true ∧ ∃ g, n.groups = some g ∧
+      ((¬ n.static ∧ news = gnDynReplacement n) ∨
+       (n.static ∧ news = gnReplacement n g ∧ g ≠ n.c ∧ g = n.sLen ∧ g = n.bLen)) := by
   unfold groupnormalization_20_21 at h
   by_cases h1 : (!(n.hasX && n.hasScale && n.hasBias)) = true
   · simp [h1] at h
   · simp only [h1] at h
-    by_cases h2 : n.xVis = .missing
-    · simp [h2] at h
-    · by_cases h3 : n.xVis = .symbolic
-      · simp [h3] at h
-      · by_cases h4 : (n.sVis = .missing || n.bVis = .missing) = true
-        · simp [h2, h3, h4] at h
-        · by_cases h5 : (n.sVis = .symbolic || n.bVis = .symbolic) = true
-          · simp [h2, h3, h4, h5] at h
-          · simp only [h2, h3, h4, h5] at h
-            cases hg : n.groups with
-            | none => simp [hg] at h
-            | some g =>
-              simp only [hg] at h
-              by_cases h6 : (g ≠ n.c && g = n.sLen && g = n.bLen) = true
-              · simp only [h6, if_true] at h
-                injection h with h
-                refine ⟨g, rfl, h.symm, ?_⟩
-                have hx : n.xVis = .known := by cases hxv : n.xVis <;> simp_all
-                simp at h1 h6
-                exact ⟨h1.1.1, h1.1.2, h1.2, hx, h6.1.1, h6.1.2, h6.2⟩
-              · exfalso
-                simp at h6
-                have hc : ¬ ((¬g = n.c ∧ g = n.sLen) ∧ g = n.bLen) := fun hh => (h6 hh.1.1 hh.1.2) hh.2
-                simp [hc] at h
+    have hin : n.hasX = true ∧ n.hasScale = true ∧ n.hasBias = true := by
+      simp at h1; exact ⟨h1.1.1, h1.1.2, h1.2⟩
+    cases hg : n.groups with
+    | none => simp [hg] at h
+    | some g =>
+      simp only [hg] at h
+      refine ⟨hin.1, hin.2.1, hin.2.2, g, rfl, ?_⟩
+      by_cases hs : (n.xVis = .known && n.sVis = .known && n.bVis = .known) = true
+      · simp only [hs, Bool.not_true, Bool.false_eq_true, if_false] at h
+        by_cases h6 : (g ≠ n.c && g = n.sLen && g = n.bLen) = true
+        · simp only [h6, if_true] at h
+          injection h with h
+          simp at h6
+          exact Or.inr ⟨(gn_static_iff n).mp hs, h.symm, h6.1.1, h6.1.2, h6.2⟩
+        · exfalso
+          simp at h6
+          have hc : ¬ ((¬g = n.c ∧ g = n.sLen) ∧ g = n.bLen) := fun hh => (h6 hh.1.1 hh.1.2) hh.2
+          simp [hc] at h
+      · have hns : ¬ n.static := fun hh => hs ((gn_static_iff n).mpr hh)
+        have hs' : (n.xVis = .known && n.sVis = .known && n.bVis = .known) = false := by
+          cases hq : (n.xVis = .known && n.sVis = .known && n.bVis = .known) <;> simp_all
+        simp only [hs', Bool.not_false, if_true] at h
+        injection h with h
+        exact Or.inl ⟨hns, h.symm⟩
 
 theorem gn_ne_noAdapter (n : GN) : groupnormalization_20_21 (.groupNorm n) ≠ .noAdapter := by
   intro h
@@ -48,21 +55,15 @@ theorem gn_ne_noAdapter (n : GN) : groupnormalization_20_21 (.groupNorm n) ≠ .
   by_cases h1 : (!(n.hasX && n.hasScale && n.hasBias)) = true
   · simp [h1] at h
   · simp only [h1] at h
-    by_cases h2 : n.xVis = .missing
-    · simp [h2] at h
-    · by_cases h3 : n.xVis = .symbolic
-      · simp [h3] at h
-      · by_cases h4 : (n.sVis = .missing || n.bVis = .missing) = true
-        · simp [h2, h3, h4] at h
-        · by_cases h5 : (n.sVis = .symbolic || n.bVis = .symbolic) = true
-          · simp [h2, h3, h4, h5] at h
-          · simp only [h2, h3, h4, h5] at h
-            cases hg : n.groups with
-            | none => simp [hg] at h
-            | some g =>
-              simp only [hg] at h
-              simp at h
-              split at h <;> cases h
+    cases hg : n.groups with
+    | none => simp [hg] at h
+    | some g =>
+      simp only [hg] at h
+      by_cases hs : (!(n.xVis = .known && n.sVis = .known && n.bVis = .known)) = true
+      · simp [hs] at h
+      · simp only [hs] at h
+        simp at h
+        split at h <;> cases h
 
 /-- Every replacement keeps exactly one non-auxiliary node (the rewritten operator). -/
 theorem replaced_one_principal {op : Op} {v : Nat} {news : List Op} (h : adapt op v = .replaced news) :
@@ -90,9 +91,10 @@ theorem replaced_one_principal {op : Op} {v : Nat} {news : List Op} (h : adapt o
   | groupNorm n =>
     simp only [adapt] at h
     split at h
-    · obtain ⟨g, _, hn, _⟩ := gn_replaced h
-      subst hn
-      simp [gnReplacement, pmOps, Op.isAux]
+    · obtain ⟨_, _, _, g, _, hc⟩ := gn_replaced h
+      rcases hc with ⟨_, hn⟩ | ⟨_, hn, _⟩
+      · subst hn; simp [gnDynReplacement, pmOps, Op.isAux]
+      · subst hn; simp [gnReplacement, pmOps, Op.isAux]
     · cases h
 
 /-- After a replacement at `v`, no adapter fires on the new nodes at any later version. -/
@@ -127,10 +129,15 @@ theorem children_quiet {op : Op} {v : Nat} {news : List Op} (h : adapt op v = .r
     simp only [adapt] at h
     split at h
     · subst_vars
-      obtain ⟨g, _, hn, _⟩ := gn_replaced h
-      subst hn
-      simp only [gnReplacement, List.mem_cons, List.mem_nil_iff, or_false] at ho
-      rcases ho with ho | ho | ho | ho | ho | ho | ho | ho | ho | ho <;> subst ho <;> simp [adapt]; omega
+      obtain ⟨_, _, _, g, _, hc⟩ := gn_replaced h
+      rcases hc with ⟨_, hn⟩ | ⟨_, hn, _⟩
+      · subst hn
+        simp only [gnDynReplacement, List.mem_cons, List.mem_nil_iff, or_false] at ho
+        rcases ho with ho | ho | ho | ho | ho | ho | ho | ho | ho | ho | ho | ho | ho | ho | ho | ho | ho <;>
+          subst ho <;> simp [adapt]; omega
+      · subst hn
+        simp only [gnReplacement, List.mem_cons, List.mem_nil_iff, or_false] at ho
+        rcases ho with ho | ho | ho | ho | ho | ho | ho | ho | ho | ho <;> subst ho <;> simp [adapt]; omega
     · cases h
 
 theorem pmOps_cons {β} (μ : Op → Nat → β) (v : Nat) (o : Op) (os : List Op) :
@@ -351,21 +358,63 @@ theorem visitLeaves_spec {β} (μ : Op → Nat → β) (hμ : Mono μ) (s t : Na
       · exact i2 l' h
     · rw [pmLeaves_append, h3, i3, ← pmLeaves_append]; rfl
 
-theorem visitBodies_spec {β} (μ : Op → Nat → β) (hμ : Mono μ) (s t : Nat) :
-    ∀ (bs : List (List Leaf)), (∀ b ∈ bs, ∀ l ∈ b, LeafPre μ s t l) →
+theorem pmLeaves_post {β} (μ : Op → Nat → β) (s t : Nat) (ls : List Leaf)
+    (h : ∀ l ∈ ls, LeafPost s t l) : pmLeaves μ s ls = pmLeaves μ t ls := by
+  induction ls with
+  | nil => rfl
+  | cons l ls ih =>
+    have ih' := ih (fun l' hl' => h l' (List.mem_cons_of_mem _ hl'))
+    have hq := h l (List.mem_cons_self ..)
+    simp only [pmLeaves, ih']
+    split
+    · rfl
+    · by_cases hd : l.dflt = true
+      · simp only [Leaf.readAt, hd, if_true, hq.effOld hd, hq.effNew hd]
+      · have hd' : l.dflt = false := by cases h : l.dflt <;> simp_all
+        simp only [Leaf.readAt, hd']; rfl
+
+/-- What the generic invariant needs to know about the nodes of subgraphs (`Pre`: their precondition):
+visiting a list of them raises nothing, re-establishes `Pre`, leaves every contained node written for `t`
+(`LeafPost`), and preserves the readings. -/
+structure InnerSpec {β} (μ : Op → Nat → β) (s t : Nat) (α : Type) [Inner α] (Pre : α → Prop) : Prop where
+  visOk : ∀ ls : List α, (∀ l ∈ ls, Pre l) →
+    (Inner.vis (some s) t ls).2 = none ∧
+    (∀ l' ∈ (Inner.vis (some s) t ls).1, Pre l' ∧ ∀ x ∈ Inner.leaves l', LeafPost s t x) ∧
+    pmLeaves μ t ((Inner.vis (some s) t ls).1.flatMap Inner.leaves) = pmLeaves μ s (ls.flatMap Inner.leaves)
+
+theorem flatMap_single (ls : List Leaf) : ls.flatMap (fun l => [l]) = ls := by
+  induction ls with
+  | nil => rfl
+  | cons l ls ih => simp [List.flatMap_cons, ih]
+
+theorem leafSpec {β} (μ : Op → Nat → β) (hμ : Mono μ) (s t : Nat) : InnerSpec μ s t Leaf (LeafPre μ s t) := by
+  refine ⟨fun ls hp => ?_⟩
+  obtain ⟨h1, h2, h3⟩ := visitLeaves_spec μ hμ s t ls hp
+  refine ⟨h1, fun l' hl' => ⟨(h2 l' hl').1, fun x hx => ?_⟩, ?_⟩
+  · have : x = l' := by simpa [Inner.leaves] using hx
+    rw [this]; exact (h2 l' hl').2
+  · show pmLeaves μ t ((visitLeaves (some s) t ls).1.flatMap (fun l => [l])) = pmLeaves μ s (ls.flatMap (fun l => [l]))
+    rw [flatMap_single, flatMap_single]; exact h3
+
+section generic
+variable {α : Type} [Inner α] {Pre : α → Prop}
+
+theorem visitBodies_spec {β} (μ : Op → Nat → β) (s t : Nat) (S : InnerSpec μ s t α Pre) :
+    ∀ (bs : List (List α)), (∀ b ∈ bs, ∀ a ∈ b, Pre a) →
     (visitBodies (some s) t bs).2 = none ∧
-    (∀ b ∈ (visitBodies (some s) t bs).1, ∀ l' ∈ b, LeafPre μ s t l' ∧ LeafPost s t l') ∧
-    pmLeaves μ t (visitBodies (some s) t bs).1.flatten = pmLeaves μ s bs.flatten ∧
+    (∀ b ∈ (visitBodies (some s) t bs).1, ∀ a ∈ b, Pre a ∧ ∀ x ∈ Inner.leaves a, LeafPost s t x) ∧
+    pmLeaves μ t ((visitBodies (some s) t bs).1.flatten.flatMap Inner.leaves)
+      = pmLeaves μ s (bs.flatten.flatMap Inner.leaves) ∧
     ((visitBodies (some s) t bs).1 = [] ↔ bs = []) := by
   intro bs
   induction bs with
   | nil => intro _; simp [visitBodies, pmLeaves]
   | cons b bs ih =>
     intro hp
-    obtain ⟨h1, h2, h3⟩ := visitLeaves_spec μ hμ s t b (hp b (List.mem_cons_self ..))
+    obtain ⟨h1, h2, h3⟩ := S.visOk b (hp b (List.mem_cons_self ..))
     obtain ⟨i1, i2, i3, _⟩ := ih (fun b' hb' => hp b' (List.mem_cons_of_mem _ hb'))
     unfold visitBodies
-    rcases hv : visitLeaves (some s) t b with ⟨out, e⟩
+    rcases hv : Inner.vis (some s) t b with ⟨out, e⟩
     rw [hv] at h1 h2 h3
     simp only at h1 h2 h3
     subst h1
@@ -379,27 +428,13 @@ theorem visitBodies_spec {β} (μ : Op → Nat → β) (hμ : Mono μ) (s t : Na
       rcases List.mem_cons.mp hb' with h | h
       · subst h; exact h2
       · exact i2 b' h
-    · rw [List.flatten_cons, List.flatten_cons, pmLeaves_append, pmLeaves_append, h3, i3]
+    · rw [List.flatten_cons, List.flatten_cons, List.flatMap_append, List.flatMap_append,
+        pmLeaves_append, pmLeaves_append, h3, i3]
 
-theorem pmLeaves_post {β} (μ : Op → Nat → β) (s t : Nat) (ls : List Leaf)
-    (h : ∀ l ∈ ls, LeafPre μ s t l ∧ LeafPost s t l) : pmLeaves μ s ls = pmLeaves μ t ls := by
-  induction ls with
-  | nil => rfl
-  | cons l ls ih =>
-    have ih' := ih (fun l' hl' => h l' (List.mem_cons_of_mem _ hl'))
-    obtain ⟨hp, hq⟩ := h l (List.mem_cons_self ..)
-    simp only [pmLeaves, ih']
-    split
-    · rfl
-    · by_cases hd : l.dflt = true
-      · simp only [Leaf.readAt, hd, if_true, hq.effOld hd, hq.effNew hd]
-      · have hd' : l.dflt = false := by cases h : l.dflt <;> simp_all
-        simp only [Leaf.readAt, hd']; rfl
-
-def leafNode (l : Leaf) : Node := { leaf := l, bodies := [] }
+def leafNode (l : Leaf) : Node α := { leaf := l, bodies := [] }
 
 theorem nodeSteps_nobodies (d : Option Nat) (t : Nat) :
-    ∀ (k v : Nat) (l : Leaf), nodeSteps d t k v (leafNode l) = (leafSteps k v l).map leafNode := by
+    ∀ (k v : Nat) (l : Leaf), nodeSteps d t k v (leafNode l : Node α) = (leafSteps k v l).map leafNode := by
   intro k
   induction k with
   | zero => intro v l; rfl
@@ -419,17 +454,17 @@ theorem nodeSteps_nobodies (d : Option Nat) (t : Nat) :
 
 /-- The step loop on a control-flow node (`k+1` steps): the node is stamped, its subgraphs are converted by
 the first step and left alone by the later ones. -/
-theorem nodeSteps_ctrl {β} (μ : Op → Nat → β) (hμ : Mono μ) (s t : Nat) :
-    ∀ (k v : Nat) (n : Node) (name : String), n.leaf.op = .plain name →
-      (∀ b ∈ n.bodies, ∀ l ∈ b, LeafPre μ s t l) →
+theorem nodeSteps_ctrl {β} (μ : Op → Nat → β) (s t : Nat) (S : InnerSpec μ s t α Pre) :
+    ∀ (k v : Nat) (n : Node α) (name : String), n.leaf.op = .plain name →
+      (∀ b ∈ n.bodies, ∀ a ∈ b, Pre a) →
       ∃ bs', nodeSteps (some s) t (k + 1) v n = [{ leaf := { n.leaf with version := some (v + k + 1) }, bodies := bs' }] ∧
-        (∀ b ∈ bs', ∀ l ∈ b, LeafPre μ s t l ∧ LeafPost s t l) ∧
-        pmLeaves μ t bs'.flatten = pmLeaves μ s n.bodies.flatten := by
+        (∀ b ∈ bs', ∀ a ∈ b, Pre a ∧ ∀ x ∈ Inner.leaves a, LeafPost s t x) ∧
+        pmLeaves μ t (bs'.flatten.flatMap Inner.leaves) = pmLeaves μ s (n.bodies.flatten.flatMap Inner.leaves) := by
   intro k
   induction k with
   | zero =>
     intro v n name hop hb
-    obtain ⟨h1, h2, h3, _⟩ := visitBodies_spec μ hμ s t n.bodies hb
+    obtain ⟨h1, h2, h3, _⟩ := visitBodies_spec μ s t S n.bodies hb
     unfold nodeSteps
     have hA : adapt n.leaf.op v = .noAdapter := by rw [hop]; rfl
     rw [hA]
@@ -440,7 +475,7 @@ theorem nodeSteps_ctrl {β} (μ : Op → Nat → β) (hμ : Mono μ) (s t : Nat)
     exact ⟨bs, by simp [nodeSteps], h2, h3⟩
   | succ k ih =>
     intro v n name hop hb
-    obtain ⟨h1, h2, h3, _⟩ := visitBodies_spec μ hμ s t n.bodies hb
+    obtain ⟨h1, h2, h3, _⟩ := visitBodies_spec μ s t S n.bodies hb
     unfold nodeSteps
     have hA : adapt n.leaf.op v = .noAdapter := by rw [hop]; rfl
     rw [hA]
@@ -450,17 +485,14 @@ theorem nodeSteps_ctrl {β} (μ : Op → Nat → β) (hμ : Mono μ) (s t : Nat)
     subst h1
     simp only []
     obtain ⟨bs', j1, j2, j3⟩ := ih (v + 1) { leaf := { n.leaf with version := some (v + 1) }, bodies := bs } name
-      hop (fun b hb' l hl => (h2 b hb' l hl).1)
+      hop (fun b hb' a ha => (h2 b hb' a ha).1)
     refine ⟨bs', ?_, j2, ?_⟩
     · rw [j1]; simp only [List.cons.injEq, and_true]; congr 2; congr 1; omega
     · rw [j3]; simp only []
-      rw [pmLeaves_post μ s t bs.flatten (fun l hl => by
-        obtain ⟨b, hb', hl'⟩ := List.mem_flatten.mp hl
-        exact h2 b hb' l hl'), h3]
-
-structure NodePost (s t : Nat) (n : Node) : Prop where
-  leaf : LeafPost s t n.leaf
-  bodies : ∀ b ∈ n.bodies, ∀ l ∈ b, LeafPost s t l
+      rw [pmLeaves_post μ s t _ (fun x hx => by
+        obtain ⟨a, ha, hx'⟩ := List.mem_flatMap.mp hx
+        obtain ⟨b, hb', ha'⟩ := List.mem_flatten.mp ha
+        exact (h2 b hb' a ha').2 x hx'), h3]
 
 theorem mono_plain {β} (μ : Op → Nat → β) (hμ : Mono μ) (name : String) (a j : Nat) :
     μ (.plain name) (a + j) = μ (.plain name) a := by
@@ -469,7 +501,7 @@ theorem mono_plain {β} (μ : Op → Nat → β) (hμ : Mono μ) (name : String)
   | succ j ih => rw [← ih, ← Nat.add_assoc]; exact hμ _ _ rfl
 
 theorem visitNode_leafNode (d : Option Nat) (t : Nat) (l : Leaf) :
-    visitNode d t (leafNode l) = ((visitLeaf d t l).1.map leafNode, (visitLeaf d t l).2) := by
+    visitNode d t (leafNode l : Node α) = ((visitLeaf d t l).1.map leafNode, (visitLeaf d t l).2) := by
   rcases l with ⟨dflt, op, version, refAttr⟩
   unfold visitNode visitLeaf
   simp only [leafNode]
@@ -490,14 +522,19 @@ theorem visitNode_leafNode (d : Option Nat) (t : Nat) (l : Leaf) :
         · simp only [h, if_false, Prod.mk.injEq, and_true]
           exact nodeSteps_nobodies d t _ _ _
 
-theorem leaves_map_leafNode (ls : List Leaf) : (ls.map leafNode).flatMap Node.leaves = ls := by
+theorem leaves_map_leafNode (ls : List Leaf) : (ls.map (leafNode (α := α))).flatMap Node.leaves = ls := by
   induction ls with
   | nil => rfl
   | cons l ls ih => simp [List.flatMap_cons, Node.leaves, leafNode, ih]
 
-theorem visitNode_spec {β} (μ : Op → Nat → β) (hμ : Mono μ) (s t : Nat) (n : Node) (hp : NodePre μ s t n) :
+theorem leafNode_pre {β} {μ : Op → Nat → β} {s t : Nat} {l : Leaf} (h : LeafPre μ s t l) :
+    NodePre μ s t Pre (leafNode l : Node α) :=
+  ⟨h, fun hb => absurd rfl hb, by intro b hb; simp [leafNode] at hb, fun _ => rfl, by intro _ b hb; simp [leafNode] at hb⟩
+
+theorem visitNode_spec {β} (μ : Op → Nat → β) (hμ : Mono μ) (s t : Nat) (S : InnerSpec μ s t α Pre)
+    (n : Node α) (hp : NodePre μ s t Pre n) :
     (visitNode (some s) t n).2 = none ∧
-    (∀ n' ∈ (visitNode (some s) t n).1, NodePost s t n') ∧
+    (∀ n' ∈ (visitNode (some s) t n).1, NodePre μ s t Pre n' ∧ ∀ x ∈ n'.leaves, LeafPost s t x) ∧
     pmNodes μ t (visitNode (some s) t n).1 = pmNodes μ s [n] := by
   by_cases hb : n.bodies = []
   · -- a node without subgraphs
@@ -507,7 +544,9 @@ theorem visitNode_spec {β} (μ : Op → Nat → β) (hμ : Mono μ) (s t : Nat)
     refine ⟨h1, ?_, ?_⟩
     · intro n' hn'
       obtain ⟨l', hl', rfl⟩ := List.mem_map.mp hn'
-      exact ⟨(h2 l' hl').2, by simp [leafNode]⟩
+      refine ⟨leafNode_pre (h2 l' hl').1, fun x hx => ?_⟩
+      have : x = l' := by simpa [Node.leaves, leafNode] using hx
+      rw [this]; exact (h2 l' hl').2
     · simp only [pmNodes, leaves_map_leafNode, h3]
       simp [Node.leaves, leafNode]
   · obtain ⟨name, hop⟩ := hp.ctrl hb
@@ -521,36 +560,47 @@ theorem visitNode_spec {β} (μ : Op → Nat → β) (hμ : Mono μ) (s t : Nat)
     have hle := hp.leaf.le hd
     unfold visitNode
     simp only [hd, hver, hr, Bool.not_true, Bool.false_eq_true, if_false, Nat.not_lt.mpr hle]
-    have hall : ∀ l ∈ n.bodies.flatten, LeafPre μ s t l := fun l hl => by
-      obtain ⟨b, hb', hl'⟩ := List.mem_flatten.mp hl
-      exact hp.bodies b hb' l hl'
     cases hk : t - n.leaf.eff s with
     | zero =>
       have het : n.leaf.eff s = t := by omega
-      have hpost : ∀ l ∈ n.leaf :: n.bodies.flatten, LeafPre μ s t l ∧ LeafPost s t l := by
+      have hpost : ∀ l ∈ n.leaves, LeafPost s t l := by
         intro l hl
         rcases List.mem_cons.mp hl with h | h
-        · subst h; exact ⟨hp.leaf, ⟨fun _ => het, fun _ => eff_new_of_old het⟩⟩
-        · obtain ⟨b, hb', hl'⟩ := List.mem_flatten.mp h
-          have he : l.dflt = true → l.eff s = t := fun hdl => by rw [hp.sameEff hd b hb' l hl' hdl, het]
-          exact ⟨hp.bodies b hb' l hl', ⟨he, fun hdl => eff_new_of_old (he hdl)⟩⟩
+        · subst h; exact ⟨fun _ => het, fun _ => eff_new_of_old het⟩
+        · obtain ⟨a, ha, hx⟩ := List.mem_flatMap.mp h
+          obtain ⟨b, hb', ha'⟩ := List.mem_flatten.mp ha
+          have he : l.dflt = true → l.eff s = t := fun hdl => by rw [hp.sameEff hd b hb' a ha' l hx hdl, het]
+          exact ⟨he, fun hdl => eff_new_of_old (he hdl)⟩
       refine ⟨trivial, ?_, ?_⟩
       · intro n' hn'
         have : n' = n := by simpa [nodeSteps] using hn'
         subst this
-        exact ⟨(hpost _ (List.mem_cons_self ..)).2, fun b hb' l hl =>
-          (hpost l (List.mem_cons_of_mem _ (List.mem_flatten.mpr ⟨b, hb', hl⟩))).2⟩
-      · simp only [nodeSteps, pmNodes, List.flatMap_cons, List.flatMap_nil, List.append_nil, Node.leaves]
+        exact ⟨hp, hpost⟩
+      · simp only [nodeSteps, pmNodes, List.flatMap_cons, List.flatMap_nil, List.append_nil]
         exact (pmLeaves_post μ s t _ hpost).symm
     | succ k =>
-      obtain ⟨bs', j1, j2, j3⟩ := nodeSteps_ctrl μ hμ s t k (n.leaf.eff s) n name hop hp.bodies
+      obtain ⟨bs', j1, j2, j3⟩ := nodeSteps_ctrl μ s t S k (n.leaf.eff s) n name hop hp.bodies
       have hst : n.leaf.eff s + k + 1 = t := by omega
       rw [j1, hst]
       refine ⟨trivial, ?_, ?_⟩
       · intro n' hn'
         rw [List.mem_singleton] at hn'
         subst hn'
-        exact ⟨⟨fun _ => eff_of_version rfl, fun _ => eff_of_version rfl⟩, fun b hb' l hl => (j2 b hb' l hl).2⟩
+        have hleaves : ∀ x ∈ (bs'.flatten.flatMap Inner.leaves), LeafPost s t x := by
+          intro x hx
+          obtain ⟨a, ha, hx'⟩ := List.mem_flatMap.mp hx
+          obtain ⟨b, hb', ha'⟩ := List.mem_flatten.mp ha
+          exact (j2 b hb' a ha').2 x hx'
+        refine ⟨⟨⟨fun _ => hr, fun _ => by rw [eff_of_version rfl]; exact Nat.le_refl _,
+            fun _ v' h1 h2 => by rw [eff_of_version rfl] at h1; omega⟩,
+          fun _ => ⟨name, hop⟩, fun b hb' a ha => (j2 b hb' a ha).1, fun h => (by rw [hd] at h; cases h),
+          fun _ b hb' a ha l hl hdl => (by
+            rw [eff_of_version (l := { n.leaf with version := some t }) rfl]
+            exact ((j2 b hb' a ha).2 l hl).effOld hdl)⟩, ?_⟩
+        intro x hx
+        rcases List.mem_cons.mp hx with h | h
+        · subst h; exact ⟨fun _ => eff_of_version rfl, fun _ => eff_of_version rfl⟩
+        · exact hleaves x h
       · simp only [pmNodes, List.flatMap_cons, List.flatMap_nil, List.append_nil, Node.leaves, pmLeaves, hop, j3]
         split
         · rfl
@@ -559,17 +609,17 @@ theorem visitNode_spec {β} (μ : Op → Nat → β) (hμ : Mono μ) (s t : Nat)
           rw [show n.leaf.eff s + (k + 1) = t by omega] at this
           simpa [Leaf.eff, Leaf.readAt, hd] using this
 
-theorem visitGraph_spec {β} (μ : Op → Nat → β) (hμ : Mono μ) (s t : Nat) :
-    ∀ (ns : List Node), (∀ n ∈ ns, NodePre μ s t n) →
+theorem visitGraph_spec {β} (μ : Op → Nat → β) (hμ : Mono μ) (s t : Nat) (S : InnerSpec μ s t α Pre) :
+    ∀ (ns : List (Node α)), (∀ n ∈ ns, NodePre μ s t Pre n) →
     (visitGraph (some s) t ns).2 = none ∧
-    (∀ n' ∈ (visitGraph (some s) t ns).1, NodePost s t n') ∧
+    (∀ n' ∈ (visitGraph (some s) t ns).1, NodePre μ s t Pre n' ∧ ∀ x ∈ n'.leaves, LeafPost s t x) ∧
     pmNodes μ t (visitGraph (some s) t ns).1 = pmNodes μ s ns := by
   intro ns
   induction ns with
   | nil => intro _; simp [visitGraph, pmNodes, pmLeaves]
   | cons n ns ih =>
     intro hp
-    obtain ⟨h1, h2, h3⟩ := visitNode_spec μ hμ s t n (hp n (List.mem_cons_self ..))
+    obtain ⟨h1, h2, h3⟩ := visitNode_spec μ hμ s t S n (hp n (List.mem_cons_self ..))
     obtain ⟨i1, i2, i3⟩ := ih (fun n' hn' => hp n' (List.mem_cons_of_mem _ hn'))
     unfold visitGraph
     rcases hv : visitNode (some s) t n with ⟨out, e⟩
@@ -590,18 +640,52 @@ theorem visitGraph_spec {β} (μ : Op → Nat → β) (hμ : Mono μ) (s t : Nat
       rw [List.flatMap_append, pmLeaves_append, h3, i3, ← pmLeaves_append]
       simp [List.flatMap_cons]
 
+/-- The invariant one nesting level up. -/
+theorem nodeSpec {β} (μ : Op → Nat → β) (hμ : Mono μ) (s t : Nat) (S : InnerSpec μ s t α Pre) :
+    InnerSpec μ s t (Node α) (NodePre μ s t Pre) :=
+  ⟨fun ns hp => visitGraph_spec μ hμ s t S ns hp⟩
+
+end generic
+
+/-- The invariant at every nesting depth. -/
+theorem specD {β} (μ : Op → Nat → β) (hμ : Mono μ) (s t : Nat) : (d : Nat) → InnerSpec μ s t (NodeD d) (PreD μ s t d)
+  | 0 => leafSpec μ hμ s t
+  | d + 1 => nodeSpec μ hμ s t (specD μ hμ s t d)
+
 theorem SrcLeaf.toPre {β} {μ : Op → Nat → β} {s t : Nat} {l : Leaf} (h : SrcLeaf μ s l) (hst : s ≤ t) :
     LeafPre μ s t l :=
   ⟨h.noRef, fun hd => by rw [h.ver hd]; exact hst, fun hd v' h1 _ => h.good hd v' (by rw [h.ver hd] at h1; exact h1)⟩
 
-theorem SrcNode.toPre {β} {μ : Op → Nat → β} {s t : Nat} {n : Node} (h : SrcNode μ s n) (hst : s ≤ t) :
-    NodePre μ s t n :=
-  ⟨h.leaf.toPre hst, h.ctrl, fun b hb l hl => (h.bodies b hb l hl).toPre hst, h.customFlat,
-    fun hd b hb l hl hdl => by rw [(h.bodies b hb l hl).ver hdl, h.leaf.ver hd]⟩
+theorem SrcD.leaves_eff {β} {μ : Op → Nat → β} {s : Nat} : (d : Nat) → (a : NodeD d) → SrcD μ s d a →
+    ∀ x ∈ Inner.leaves a, x.dflt = true → x.eff s = s
+  | 0, l, h => by
+    intro x hx hd
+    have hx' : x ∈ [l] := hx
+    have : x = l := List.mem_singleton.mp hx'
+    rw [this]; exact h.ver (this ▸ hd)
+  | d + 1, n, h => by
+    intro x hx hd
+    have hx' : x ∈ Node.leaves n := hx
+    rcases List.mem_cons.mp hx' with h' | h'
+    · subst h'; exact h.leaf.ver hd
+    · obtain ⟨a, ha, hxa⟩ := List.mem_flatMap.mp h'
+      obtain ⟨b, hb, ha'⟩ := List.mem_flatten.mp ha
+      exact SrcD.leaves_eff d a (h.bodies b hb a ha') x hxa hd
+
+theorem SrcD.toPre {β} {μ : Op → Nat → β} {s t : Nat} (hst : s ≤ t) : (d : Nat) → (a : NodeD d) → SrcD μ s d a →
+    PreD μ s t d a
+  | 0, _, h => SrcLeaf.toPre h hst
+  | d + 1, n, h =>
+    ⟨h.leaf.toPre hst, h.ctrl, fun b hb a ha => SrcD.toPre hst d a (h.bodies b hb a ha), h.customFlat,
+      fun hd b hb a ha l hl hdl => by
+        rw [SrcD.leaves_eff d a (h.bodies b hb a ha) l hl hdl, h.leaf.ver hd]⟩
+
+section generic2
+variable {α : Type} [Inner α]
 
 /-- A downgrade is refused at the first default-domain node, before anything was touched. -/
 theorem visitGraph_downgrade {β} (μ : Op → Nat → β) (s t : Nat) (hts : t < s) :
-    ∀ (ns : List Node), (∀ n ∈ ns, SrcNode μ s n) →
+    ∀ (ns : List (Node α)), (∀ n ∈ ns, SrcLeaf μ s n.leaf) →
       (visitGraph (some s) t ns).1 = ns ∧
       ((visitGraph (some s) t ns).2 = none → ∀ n ∈ ns, n.leaf.dflt = false) := by
   intro ns
@@ -626,36 +710,54 @@ theorem visitGraph_downgrade {β} (μ : Op → Nat → β) (s t : Nat) (hts : t 
     | true =>
       have hver : n.leaf.version.or (some s) = some (n.leaf.eff s) := by
         unfold Leaf.eff; cases n.leaf.version <;> rfl
-      simp only [Bool.not_true, Bool.false_eq_true, if_false, hver, hn.leaf.noRef hd, hn.leaf.ver hd, hts, if_true]
+      simp only [Bool.not_true, Bool.false_eq_true, if_false, hver, hn.noRef hd, hn.ver hd, hts, if_true]
       exact ⟨rfl, fun h => by cases h⟩
 
-theorem setNodes_self (m : Model) : { m with nodes := m.nodes } = m := by cases m; rfl
+omit [Inner α] in
+theorem setNodes_self (m : Model α) : { m with nodes := m.nodes } = m := by cases m; rfl
 
-theorem allAt_of_post {s t : Nat} {ns : List Node} (h : ∀ n ∈ ns, NodePost s t n) : AllAt t ns := by
-  intro n hn l hl hd
-  rcases List.mem_cons.mp hl with h' | h'
-  · subst h'; exact (h n hn).leaf.effNew hd
-  · obtain ⟨b, hb, hl'⟩ := List.mem_flatten.mp h'
-    exact ((h n hn).bodies b hb l hl').effNew hd
+theorem allAt_of_post {s t : Nat} {ns : List (Node α)} (h : ∀ n ∈ ns, ∀ x ∈ n.leaves, LeafPost s t x) :
+    AllAt t ns := fun n hn l hl hd => (h n hn l hl).effNew hd
 
-theorem pmNodes_custom {β} (μ : Op → Nat → β) (s t : Nat) (ns : List Node)
+theorem pmNodes_custom {β} (μ : Op → Nat → β) (s t : Nat) (ns : List (Node α))
     (h : ∀ n ∈ ns, n.leaf.dflt = false ∧ n.bodies = []) : pmNodes μ t ns = pmNodes μ s ns := by
   induction ns with
   | nil => rfl
   | cons n ns ih =>
     have ih' := ih (fun n' hn' => h n' (List.mem_cons_of_mem _ hn'))
     obtain ⟨h1, h2⟩ := h n (List.mem_cons_self ..)
-    simp only [pmNodes, List.flatMap_cons, Node.leaves, h2, List.flatten_nil, List.cons_append, List.nil_append,
-      pmLeaves, Leaf.readAt, h1, Bool.false_eq_true, if_false] at ih' ⊢
+    simp only [pmNodes, List.flatMap_cons, Node.leaves, h2, List.flatten_nil, List.flatMap_nil, List.cons_append,
+      List.nil_append, pmLeaves, Leaf.readAt, h1, Bool.false_eq_true, if_false] at ih' ⊢
     rw [ih']
 
-/-- `_version_converter.convert_version` on a self-consistent model (functions already inlined). -/
-theorem nativeConvert_spec {β} (μ : Op → Nat → β) (hμ : Mono μ) (s t : Nat) (m : Model) (h : SelfConsistent μ s m) :
+end generic2
+theorem erase_leaves_none : (d : Nat) → (a : NodeD d) → ∀ x ∈ Inner.leaves (Inner.erase a), x.version = none
+  | 0, l => by
+    intro x hx
+    have hx' : x ∈ [eraseLeaf l] := hx
+    rw [List.mem_singleton.mp hx']; rfl
+  | d + 1, n => by
+    intro x hx
+    have hx' : x ∈ Node.leaves (eraseNode n) := hx
+    rcases List.mem_cons.mp hx' with h | h
+    · rw [h]; rfl
+    · obtain ⟨a, ha, hxa⟩ := List.mem_flatMap.mp h
+      obtain ⟨b, hb, ha'⟩ := List.mem_flatten.mp ha
+      simp only [eraseNode, List.mem_map] at hb
+      obtain ⟨b0, _, rfl⟩ := hb
+      obtain ⟨a0, _, rfl⟩ := List.mem_map.mp ha'
+      exact erase_leaves_none d a0 x hxa
+
+/-- `_version_converter.convert_version` on a self-consistent model (functions already inlined),
+subgraphs of any nesting depth. -/
+theorem nativeConvert_spec {β} (μ : Op → Nat → β) (hμ : Mono μ) (s t : Nat) {d : Nat} (m : Model (NodeD d))
+    (h : SelfConsistent μ s m) :
       ((nativeConvert t m).2 = none ∧ (nativeConvert t m).1.declared = some t ∧ (nativeConvert t m).1.aionnx = none ∧
         (nativeConvert t m).1.funcs = [] ∧ AllAt t (nativeConvert t m).1.nodes ∧
         pmNodes μ t (nativeConvert t m).1.nodes = pmNodes μ s m.nodes ∧
         (nativeConvert t m).1.inputs = m.inputs ∧ (nativeConvert t m).1.inits = m.inits)
       ∨ (nativeConvert t m).1 = m := by
+  have hsrc : ∀ n ∈ m.nodes, SrcNode (α := NodeD d) μ s (SrcD μ s d) n := fun n hn => h.nodes n hn
   unfold nativeConvert
   split
   · exact Or.inr rfl
@@ -665,15 +767,18 @@ theorem nativeConvert_spec {β} (μ : Op → Nat → β) (hμ : Mono μ) (s t : 
     rw [hget]
     simp only []
     by_cases hst : s ≤ t
-    · obtain ⟨g1, g2, g3⟩ := visitGraph_spec μ hμ s t m.nodes (fun n hn => (h.nodes n hn).toPre hst)
+    · obtain ⟨g1, g2, g3⟩ := visitGraph_spec μ hμ s t (specD μ hμ s t d) m.nodes
+        (fun n hn => SrcD.toPre hst (d + 1) n (h.nodes n hn))
       rcases hv : visitGraph (some s) t m.nodes with ⟨ns, e⟩
       rw [hv] at g1 g2 g3
       simp only at g1 g2 g3
       subst g1
       rw [h.inlined]
       simp only [visitFuncs, Model.setOpset]
-      exact Or.inl ⟨(by first | trivial | rfl), (by first | trivial | rfl), (by first | trivial | rfl), (by first | trivial | rfl), allAt_of_post g2, g3, (by first | trivial | rfl), (by first | trivial | rfl)⟩
-    · obtain ⟨g1, g2⟩ := visitGraph_downgrade μ s t (by omega) m.nodes h.nodes
+      exact Or.inl ⟨(by first | trivial | rfl), (by first | trivial | rfl), (by first | trivial | rfl),
+        (by first | trivial | rfl), allAt_of_post (fun n hn => (g2 n hn).2), g3, (by first | trivial | rfl),
+        (by first | trivial | rfl)⟩
+    · obtain ⟨g1, g2⟩ := visitGraph_downgrade μ s t (by omega) m.nodes (fun n hn => (hsrc n hn).leaf)
       rcases hv : visitGraph (some s) t m.nodes with ⟨ns, e⟩
       rw [hv] at g1 g2
       simp only at g1 g2
@@ -684,16 +789,17 @@ theorem nativeConvert_spec {β} (μ : Op → Nat → β) (hμ : Mono μ) (s t : 
         have hc := g2 rfl
         rw [h.inlined]
         simp only [visitFuncs, Model.setOpset]
-        refine Or.inl ⟨(by first | trivial | rfl), (by first | trivial | rfl), (by first | trivial | rfl), (by first | trivial | rfl), ?_, ?_, (by first | trivial | rfl), (by first | trivial | rfl)⟩
+        refine Or.inl ⟨(by first | trivial | rfl), (by first | trivial | rfl), (by first | trivial | rfl),
+          (by first | trivial | rfl), ?_, ?_, (by first | trivial | rfl), (by first | trivial | rfl)⟩
         · intro n hn l hl hd
-          have hflat := (h.nodes n hn).customFlat (hc n hn)
-          simp only [Node.leaves, hflat, List.flatten_nil, List.mem_singleton] at hl
+          have hflat := (hsrc n hn).customFlat (hc n hn)
+          simp only [Node.leaves, hflat, List.flatten_nil, List.flatMap_nil, List.mem_singleton] at hl
           rw [hl, hc n hn] at hd; cases hd
-        · exact pmNodes_custom μ s t m.nodes (fun n hn => ⟨hc n hn, (h.nodes n hn).customFlat (hc n hn)⟩)
+        · exact pmNodes_custom μ s t m.nodes (fun n hn => ⟨hc n hn, (hsrc n hn).customFlat (hc n hn)⟩)
 
 /-- `_ConvertVersionPassRequiresInline.call` on a self-consistent model. -/
-theorem requiresInline_spec {β} (μ : Op → Nat → β) (hμ : Mono μ) (s t : Nat) (fb : Fallback) (capi : CApi)
-    (m : Model) (h : SelfConsistent μ s m) :
+theorem requiresInline_spec {β} (μ : Op → Nat → β) (hμ : Mono μ) (s t : Nat) (fb : Fallback) {d : Nat}
+    (capi : CApi (NodeD d)) (m : Model (NodeD d)) (h : SelfConsistent μ s m) :
     ((requiresInlineCall fb t capi m).2 = none ∧
       (requiresInlineCall fb t capi m).1.declared = some t ∧
       (requiresInlineCall fb t capi m).1.aionnx = none ∧
@@ -708,8 +814,8 @@ theorem requiresInline_spec {β} (μ : Op → Nat → β) (hμ : Mono μ) (s t :
   split
   · exact Or.inr rfl
   · split
-    · rcases hnative with ⟨a, b, c, d, e, f, g, i⟩ | hn
-      · exact Or.inl ⟨a, b, c, d, e, Or.inl ⟨f, g, i⟩⟩
+    · rcases hnative with ⟨a, b, c, d', e, f, g, i⟩ | hn
+      · exact Or.inl ⟨a, b, c, d', e, Or.inl ⟨f, g, i⟩⟩
       · exact Or.inr hn
     · split
       · exact Or.inr rfl
@@ -721,11 +827,138 @@ theorem requiresInline_spec {β} (μ : Op → Nat → β) (hμ : Mono μ) (s t :
           · intro n hn l hl hd
             simp only [recoverFallback, List.mem_map] at hn
             obtain ⟨n0, _, rfl⟩ := hn
-            have : l.version = none := by
-              simp only [Node.leaves, eraseNode, List.mem_cons, List.mem_flatten, List.mem_map] at hl
-              rcases hl with h' | ⟨b, ⟨b0, _, rfl⟩, hl'⟩
-              · rw [h']; rfl
-              · obtain ⟨l0, _, rfl⟩ := List.mem_map.mp hl'; rfl
+            have : l.version = none := erase_leaves_none (d + 1) n0 l hl
             simp [Leaf.eff, this]
+
+/-! ### Validity of the source implies that every step is good (no hypothesis on the adapters) -/
+
+theorem good_gs (mode : Option String) (align : Option Int) (pad : Option String)
+    (hvalid : (Op.meaning (.gridSample mode align pad) 19).isSome) :
+    Good Op.meaning (.gridSample mode align pad) 19 := by
+  unfold Good
+  simp only [adapt, if_true, gridsample_19_20]
+  cases mode with
+  | none => simp [Op.meaning, gsInterp, Option.getD]
+  | some m =>
+    simp only [Option.getD]
+    by_cases h1 : m = "bilinear"
+    · subst h1; simp [Op.meaning, gsInterp, pmOps, Op.isAux, Option.getD]
+    · by_cases h2 : m = "bicubic"
+      · subst h2; simp [Op.meaning, gsInterp, pmOps, Op.isAux, Option.getD]
+      · simp only [beq_iff_eq, h1, h2, if_false]
+        simp only [Op.meaning, gsInterp, beq_iff_eq, h1, h2, if_false, Nat.le_refl, if_true] at hvalid ⊢
+        by_cases h3 : m = "nearest"
+        · simp [h3]
+        · simp [h3] at hvalid
+
+theorem good_dft (axis inv one : Option Int) (hasLen : Bool) (rank : Nat) :
+    Good Op.meaning (.dft axis inv one hasLen none rank) 19 := by
+  unfold Good
+  cases axis <;> simp [adapt, dft_19_20, pmOps, Op.isAux, Op.meaning]
+
+/-- A GroupNormalization that is a valid opset-20 form: the step 20→21 preserves its meaning — whatever the
+shape annotations show (static rewrite, run-time-ratio rewrite, or nothing to do when `num_groups = C`). -/
+theorem good_gn (n : GN) (hvalid : (Op.meaning (.groupNorm n) 20).isSome) : Good Op.meaning (.groupNorm n) 20 := by
+  simp only [Op.meaning] at hvalid
+  cases hg : n.groups with
+  | none => simp [hg] at hvalid
+  | some g =>
+    simp only [hg] at hvalid
+    by_cases h1 : (!(n.hasX && n.hasScale && n.hasBias)) = true
+    · simp [h1] at hvalid
+    · simp only [h1] at hvalid
+      by_cases hdiv : g * (n.c / g) ≠ n.c
+      · simp [hdiv] at hvalid
+      · simp only [hdiv, if_false, Nat.le_refl, if_true] at hvalid
+        have hdiv' : g * (n.c / g) = n.c := by omega
+        by_cases hl : n.sLen = g ∧ n.bLen = g
+        · obtain ⟨ls, lb⟩ := hl
+          unfold Good
+          simp only [adapt, if_true, groupnormalization_20_21, h1, hg]
+          by_cases hs : (!(n.xVis = .known && n.sVis = .known && n.bVis = .known)) = true
+          · simp only [hs, if_true]
+            simp [gnDynReplacement, pmOps, Op.isAux, Op.meaning, hg, h1, ls, lb, hdiv']
+          · simp only [hs]
+            by_cases hgc : g = n.c
+            · simp [hgc, ls, lb, Op.meaning, hg, h1] at *
+            · simp [hgc, ls, lb, gnReplacement, pmOps, Op.isAux, Op.meaning, hg, h1, hdiv']
+        · simp [hl] at hvalid
+
+/-- **Validity implies goodness**: an operator form that is valid at `s` makes every later conversion step good. -/
+theorem good_of_valid (op : Op) (s v' : Nat) (hv : (op.meaning s).isSome) (hle : s ≤ v') : Good Op.meaning op v' := by
+  cases op with
+  | plain n => exact good_of_quiet _ rfl
+  | const a b => exact good_of_quiet _ rfl
+  | call f => exact good_of_quiet _ rfl
+  | gridSample m a p =>
+    by_cases h : v' = 19
+    · subst h
+      refine good_gs m a p ?_
+      have hs : s ≤ 19 := hle
+      simpa [Op.meaning, gsInterp, hs] using hv
+    · exact good_of_quiet _ (by simp [adapt, h])
+  | dft ax inv one hasLen axisIn rank =>
+    by_cases h : v' = 19
+    · subst h
+      have hs : s ≤ 19 := hle
+      cases axisIn with
+      | none => exact good_dft ax inv one hasLen rank
+      | some q => simp [Op.meaning, hs] at hv
+    · exact good_of_quiet _ (by simp [adapt, h])
+  | groupNorm n =>
+    by_cases h : v' = 20
+    · subst h
+      refine good_gn n ?_
+      have hs : s ≤ 20 := hle
+      simpa [Op.meaning, hs] using hv
+    · exact good_of_quiet _ (by simp [adapt, h])
+
+theorem ValidLeaf.toSrc {s : Nat} {l : Leaf} (h : ValidLeaf s l) : SrcLeaf Op.meaning s l :=
+  ⟨h.ver, h.noRef, fun hd v' hv' => by
+    have hv := h.valid
+    simp only [Leaf.readAt, hd, if_true, h.ver hd] at hv
+    exact good_of_valid l.op s v' hv hv'⟩
+
+theorem ValidD.toSrc {s : Nat} : (d : Nat) → (a : NodeD d) → ValidD s d a → SrcD Op.meaning s d a
+  | 0, _, h => ValidLeaf.toSrc h
+  | d + 1, n, h => ⟨h.leaf.toSrc, h.ctrl, fun b hb a ha => ValidD.toSrc d a (h.bodies b hb a ha), h.customFlat⟩
+
+theorem ValidD.leaves_valid {s : Nat} : (d : Nat) → (a : NodeD d) → ValidD s d a →
+    ∀ x ∈ Inner.leaves a, (x.op.meaning (x.readAt s)).isSome
+  | 0, l, h => by
+    intro x hx
+    have hx' : x ∈ [l] := hx
+    rw [List.mem_singleton.mp hx']; exact h.valid
+  | d + 1, n, h => by
+    intro x hx
+    have hx' : x ∈ Node.leaves n := hx
+    rcases List.mem_cons.mp hx' with h' | h'
+    · rw [h']; exact h.leaf.valid
+    · obtain ⟨a, ha, hxa⟩ := List.mem_flatMap.mp h'
+      obtain ⟨b, hb, ha'⟩ := List.mem_flatten.mp ha
+      exact ValidD.leaves_valid d a (h.bodies b hb a ha') x hxa
+
+theorem pmLeaves_valid (s : Nat) (ls : List Leaf) (h : ∀ l ∈ ls, (l.op.meaning (l.readAt s)).isSome) :
+    ∀ x ∈ pmLeaves Op.meaning s ls, x.isSome := by
+  induction ls with
+  | nil => intro x hx; simp [pmLeaves] at hx
+  | cons l ls ih =>
+    intro x hx
+    simp only [pmLeaves] at hx
+    split at hx
+    · exact ih (fun l' hl' => h l' (List.mem_cons_of_mem _ hl')) x hx
+    · rcases List.mem_cons.mp hx with h' | h'
+      · rw [h']; exact h l (List.mem_cons_self ..)
+      · exact ih (fun l' hl' => h l' (List.mem_cons_of_mem _ hl')) x h'
+
+theorem ValidModel.selfConsistent {s d : Nat} {m : Model (NodeD d)} (h : ValidModel s m) :
+    SelfConsistent Op.meaning s m :=
+  ⟨h.declared, h.noAi, h.inlined, fun n hn => ValidD.toSrc (d + 1) n (h.nodes n hn)⟩
+
+theorem ValidModel.readings_valid {s d : Nat} {m : Model (NodeD d)} (h : ValidModel s m) :
+    ∀ x ∈ pmNodes Op.meaning s m.nodes, x.isSome := by
+  refine pmLeaves_valid s _ (fun l hl => ?_)
+  obtain ⟨n, hn, hl'⟩ := List.mem_flatMap.mp hl
+  exact ValidD.leaves_valid (d + 1) n (h.nodes n hn) l hl'
 
 end OV.C10
